@@ -8,7 +8,7 @@ from ..expr import C, SELF, canon, show, strip_epochs, walk
 from ..intervals import EQ, GT, LT, path_orderings
 from ..model import AnalysisError
 from ..own import BINF, TABLE, cand_of, is_bucket
-from .C03 import CTXS, insert_flows
+from .C03 import CTXS, cpaths, insert_flows
 
 EXPL = ("Bounded buckets: every append of an entry to a bucket is dominated by len(bucket) < bucket_size for that bucket "
         "(ordering-set semantics) or sits in a loader loop over range(bucket_size).  Candidate placement: from the ownership "
@@ -36,8 +36,8 @@ def check(prog, rep, tier):
         for f in mro_methods(prog, ctx):
             if f.prop:
                 continue
-            rep.analysed(f, ctx, len(paths(prog, ctx, f, force_inline=("__insert_element",))))
-            for p in paths(prog, ctx, f, force_inline=("__insert_element",)):
+            rep.analysed(f, ctx, len(cpaths(prog, ctx, f)))
+            for p in cpaths(prog, ctx, f):
                 for e in p.events:
                     if not (e.kind == "call" and e.target is None and e.name in ("append", "insert", "extend") and e.recv is not None):
                         continue
@@ -86,7 +86,7 @@ def check(prog, rep, tier):
                             okc = False
         # callers pass an entry with its own candidates
         gen = prog.method(ctx, "_generate_fingerprint_info")
-        for p in paths(prog, ctx, gen):
+        for p in cpaths(prog, ctx, gen):
             if p.exit[0] == "return" and p.exit[1][0] == "tup" and len(p.exit[1][1]) == 3:
                 i1, i2, fp = (strip_epochs(x) for x in p.exit[1][1])
                 okg = all(x[0] == "sub" and x[1][0] == "ret" and x[1][1].endswith("._indicies_from_fingerprint") and strip_epochs(x[1][3][-1]) == fp for x in (i1, i2)) \
@@ -96,7 +96,7 @@ def check(prog, rep, tier):
                     okc = False
         for caller in ("add", "_expand_logic"):
             cf = prog.method(ctx, caller)
-            for p in paths(prog, ctx, cf):
+            for p in cpaths(prog, ctx, cf):
                 for e in p.events:
                     if e.kind == "call" and e.name == CTXS[ctx] and len(e.args) >= 3:
                         fp, a1, a2 = (strip_epochs(x) for x in e.args[:3])
@@ -117,7 +117,7 @@ def check(prog, rep, tier):
         # ------------------------------------------------------------ no duplicates
         add = prog.method(ctx, "add")
         okd = True
-        for p in paths(prog, ctx, add):
+        for p in cpaths(prog, ctx, add):
             ins = [e for e in p.events if e.kind == "call" and e.name == CTXS[ctx]]
             pres = [c for c in p.conds if c.atom[0] == "cmp" and c.atom[1] in ("is", "isnot") and strip_epochs(c.atom[2])[0] == "ret"
                     and strip_epochs(c.atom[2])[1].endswith("._check_if_present") and not c.loops]
@@ -135,7 +135,7 @@ def check(prog, rep, tier):
         cp = prog.method(ctx, "_check_if_present")
         okp = True
         fpp = ("p", "fingerprint")
-        for p in paths(prog, ctx, cp):
+        for p in cpaths(prog, ctx, cp):
             if p.exit[0] != "return":
                 continue
             seen_b = {}
@@ -150,6 +150,18 @@ def check(prog, rep, tier):
                                              and strip_epochs(rhs[2])[0] in ("sub", "f", "it"))
                         if full:
                             which = k
+                if which is None and a[0] == "call" and a[1] == ("g", "any") and len(a[2]) == 1 and a[2][0][0] == "comp" and len(a[2][0][3]) == 1 and not a[2][0][3][0][3]:
+                    comp = a[2][0]
+                    elt = comp[2]
+                    dom = strip_epochs(comp[3][0][2])
+                    for k in ("idx_1", "idx_2"):
+                        bk = ("sub", ("f", SELF, TABLE, 0), ("p", k), 0)
+                        member = elt[0] == "cmp" and ((elt[1] == "in" and elt[2] == fpp and elt[3][0] == "it") or (elt[1] == "==" and fpp in (elt[2], elt[3])))
+                        if dom == bk and member:
+                            which = k
+                    if which is not None:
+                        seen_b[which] = c.truth
+                        continue
                 if which is None:
                     rep.bad("C15.no-duplicate", f"{ctx}._check_if_present", f"decision {nshow(a)}",
                             f"the presence test also branches on {nshow(a)}: it may skip a candidate bucket and report a stored fingerprint as absent, so add stores it twice", cp.where(c.node))
@@ -173,7 +185,7 @@ def check(prog, rep, tier):
         # ------------------------------------------------------------ capacity writers
         okw = True
         for f in mro_methods(prog, ctx):
-            for p in paths(prog, ctx, f):
+            for p in cpaths(prog, ctx, f):
                 for e in p.events:
                     if e.kind == "setfield" and e.name == "_cuckoo_capacity" and e.base == SELF:
                         v = canon(e.value)
@@ -191,7 +203,7 @@ def check(prog, rep, tier):
     for f in mro_methods(prog, ctx):
         if f.prop:
             continue
-        for p in paths(prog, ctx, f, force_inline=("__insert_element",)):
+        for p in cpaths(prog, ctx, f):
             for e in p.events:
                 if e.kind == "new" and e.cls == "CountingCuckooBin" and len(e.args) == 2:
                     c = strip_epochs(e.args[1])
@@ -200,7 +212,8 @@ def check(prog, rep, tier):
                     if c[0] == "unp":
                         # loaded count: kept only for non-empty slots
                         fg = strip_epochs(e.args[0])
-                        ok = any(strip_epochs(cd) == ("cmp", ">", fg, C(0)) for cd in conds_at(p, e))
+                        o_ = path_orderings([strip_epochs(cd) for cd in conds_at(p, e)], fg, C(0)) & {EQ, GT}  # unsigned slot value
+                        ok = o_ <= {GT}
                     if not ok:
                         rep.bad("C15.no-zero-bin", f"{ctx}.{f.src_name}", f"bin count {nshow(c)}", f"a bin is built with count {nshow(c)}, which may be zero", e.where())
                         okz = False
@@ -208,7 +221,7 @@ def check(prog, rep, tier):
         rep.ok("C15.no-zero-bin", "bins are built with 1, the caller's count, a held bin's count or a loaded count of a non-empty slot")
     rm = prog.method(ctx, "remove")
     okr, seen = True, False
-    for p in paths(prog, ctx, rm):
+    for p in cpaths(prog, ctx, rm):
         dec = [i for i, e in enumerate(p.events) if e.kind == "call" and e.name == "decrement"]
         if not dec:
             continue
